@@ -21,6 +21,7 @@ type c04Decl struct {
 	name string // Go name (method: method name)
 	recv int    // method: index of its struct
 	refs []c04Ref
+	self bool // a function that calls itself
 }
 type c04Ref struct {
 	to   int
@@ -74,6 +75,9 @@ func c04Render(ds []c04Decl, i int) string {
 		case "expr":
 			body = append(body, fmt.Sprintf("_ = %s + 1", t.name))
 		}
+	}
+	if d.self && d.kind == "func" && len(params) == 0 {
+		body = append(body, fmt.Sprintf("_ = %s()", d.name))
 	}
 	switch d.kind {
 	case "func":
@@ -195,6 +199,7 @@ func C04(c *ev.Ctx) {
 				}
 				d.refs = append(d.refs, c04Ref{to: j, kind: opts[(p+j+rr.IntN(len(opts)))%len(opts)]})
 			}
+			d.self = d.kind == "func" && rr.IntN(4) == 0
 			ds = append(ds, d)
 		}
 		// scramble the order and split into files
@@ -281,6 +286,9 @@ func C04(c *ev.Ctx) {
 					return
 				}
 				q, isDef := pos[n.Name]
+				if isDef && n.Name == d.Name && d.Kind == "def" {
+					c.Report("c04.self-call-global", fmt.Sprintf("package %s: Definition %s refers to itself as a global identifier instead of its recursive binder", name, d.Name), files)
+				}
 				if !isDef || n.Name == d.Name {
 					return
 				}
